@@ -14,6 +14,8 @@ from redun.backends.db import (Execution, Job, CallNode, CallEdge, Argument, Arg
 logging.getLogger("redun").setLevel(logging.CRITICAL)
 NS = "c23"
 tmp = tempfile.mkdtemp(prefix="c23_")
+import atexit, shutil
+atexit.register(lambda: shutil.rmtree(tmp, ignore_errors=True))     # nothing is left under /tmp
 
 
 @task(namespace=NS)
